@@ -165,13 +165,24 @@ Proof.
         -- inversion Hn; subst. left. left. f_equal. lia.
         -- right. exists i, t2. repeat split; auto; try lia.
 Qed.
-End Rec2.
 
-Fixpoint adjP (P : R -> R -> Prop) (l : list R) : Prop :=
-  match l with
-  | a :: t => match t with b :: _ => P a b /\ adjP P t | [] => True end
-  | [] => True
-  end.
+Definition desc (r : list (R * nat)) : Prop := StronglySorted (fun a b => fst b < fst a) r.
+
+Lemma spec_one_sorted o : 0 < T -> forall suf step r cur,
+  StronglySorted Rlt (cur :: suf) -> desc r -> Forall (fun e => fst e <= cur / T) r ->
+  desc (spec_one tolb dflt T tolp o step suf r).
+Proof.
+  intros HT. induction suf as [|t1 s IH]; intros step r cur HS D F; [exact D|].
+  simpl. inversion HS as [|? ? S1 F1]; subst. inversion F1 as [|? ? Hlt _]; subst.
+  assert (Hd : cur / T < t1 / T).
+  { unfold Rdiv. apply Rmult_lt_compat_r; [apply Rinv_0_lt_compat; lra|lra]. }
+  apply (IH (S step) _ t1 S1); unfold step_rec; destruct (gate tolb dflt tolp o (t1 / T)).
+  - constructor; [exact D|]. eapply Forall_impl; [|exact F]. simpl. intros; lra.
+  - exact D.
+  - constructor; [simpl; lra|]. eapply Forall_impl; [|exact F]. simpl. intros; lra.
+  - eapply Forall_impl; [|exact F]. simpl. intros; lra.
+Qed.
+End Rec2.
 
 Lemma adj_all_of_adjP (P : R -> R -> Prop) (p : R -> R -> bool) :
   (forall a b, P a b -> p a b = true) -> forall l, adjP P l -> adj_all p l = true.
@@ -215,7 +226,8 @@ Theorem run_recorded tolb tol0 tolu mps suf (obs : list (option (list R))) dflt 
     0 <= tolp /\ tolp = (if (Int_part T =? 0)%Z then tol0 else 1 / 2 / IZR (Int_part T)) /\
     Forall2 (fun o r => forall t k, In (t, k) r <-> on_grid tt T t k /\ gate tolb dflt tolp o t = true)
             obs (r_recs st) /\
-    (forall t k, In (t, k) (r_stat st) <-> on_grid tt T t k /\ (1 <= k)%nat).
+    (forall t k, In (t, k) (r_stat st) <-> on_grid tt T t k /\ (1 <= k)%nat) /\
+    Forall desc (r_recs st).
 Proof.
   intros tt T HT H0 Hu Hs Hb Hadj.
   set (tolp := if (Int_part T =? 0)%Z then tol0 else 1 / 2 / IZR (Int_part T)).
@@ -256,7 +268,18 @@ Proof.
     unfold step_rec. destruct (gate tolb dflt tolp o (0 / T)); constructor; [simpl; lra|constructor].
   - constructor.
   - exact Hstatgate.
-  - exists st, tolp. simpl app in E. simpl length in E.
+  - assert (Hord : Forall desc (r_recs st)).
+    { rewrite E1. simpl r_recs. apply Forall_forall. intros r Hr. apply in_map_iff in Hr.
+      destruct Hr as ([o r0] & <- & Hp). simpl. apply in_combine_r in Hp. apply in_map_iff in Hp.
+      destruct Hp as ([o' r1] & <- & Hp'). apply in_combine_r in Hp'. apply in_map_iff in Hp'.
+      destruct Hp' as (? & <- & _). simpl.
+      apply (spec_one_sorted tolb dflt T tolp o HT suf 0%nat _ 0 Hs); unfold step_rec;
+        destruct (gate tolb dflt tolp o' (0 / T)).
+      - constructor; constructor.
+      - constructor.
+      - constructor; [simpl; lra|constructor].
+      - constructor. }
+    exists st, tolp. simpl app in E. simpl length in E.
     replace (length suf - 0)%nat with (length suf) by lia.
     split; [exact E|]. split; [exact Htp|]. split; [reflexivity|]. split.
     + rewrite E1. simpl r_recs. simpl length.
@@ -269,7 +292,7 @@ Proof.
       * intros [(tk & Hn & ->) Hg]. destruct k as [|k]; simpl in Hn.
         -- inversion Hn; subst. left. rewrite Hg. now left.
         -- right. exists k, tk. repeat split; auto.
-    + intros t k. rewrite E2. simpl r_stat. simpl length. rewrite spec_stat_In. unfold on_grid. split.
+    + split; [|exact Hord]. intros t k. rewrite E2. simpl r_stat. simpl length. rewrite spec_stat_In. unfold on_grid. split.
       * intros [[]|(i & t1 & Hn & -> & ->)]. split; [|lia]. exists t1. split; [exact Hn|reflexivity].
       * intros [(tk & Hn & ->) Hk]. destruct k as [|k]; [lia|]. simpl in Hn.
         right. exists k, tk. repeat split; auto.
@@ -302,6 +325,7 @@ Qed.
 Lemma in01_intro t : 0 <= t <= 1 -> in01 RA t = true.
 Proof. intros. unfold in01, zero, one. simpl. apply andb_true_iff; split; apply Rleb_true; lra. Qed.
 
+
 Lemma gate_complete tolb dflt tolp o t :
   0 <= tolb -> 0 <= tolp -> 0 <= t <= 1 -> requested_of dflt o t -> gate tolb dflt tolp o t = true.
 Proof.
@@ -313,58 +337,242 @@ Proof.
     + rewrite in01_intro by assumption. reflexivity.
 Qed.
 
+(* near a requested time: both gates accept *)
+Lemma gate_near tolb dflt tolp o t e :
+  0 <= t <= 1 -> requested_of dflt o e -> Rabs (e - t) <= tolb -> Rabs (e - t) <= tolp ->
+  gate tolb dflt tolp o t = true.
+Proof.
+  intros Ht Hr Hb Hp.
+  assert (X : forall ts tol, In e ts -> Rabs (e - t) <= tol -> in_times RA t ts tol = true).
+  { intros ts tol Hin Hc. unfold in_times. rewrite in01_intro by assumption. simpl.
+    apply existsb_exists. exists e. split; [exact Hin|]. apply Rleb_true. exact Hc. }
+  unfold gate, backend_gate, pulser_gate, is_evaluation_time.
+  destruct o as [ts|]; simpl in Hr.
+  - rewrite !X by assumption. reflexivity.
+  - destruct dflt as [d|].
+    + rewrite !X by assumption. reflexivity.
+    + rewrite in01_intro by assumption. reflexivity.
+Qed.
+
+(* After the F-07 fix: whatever the config default, an accepted time is within the BACKEND
+   tolerance (1e-10) of a time requested for this very observable. *)
 Lemma gate_sound tolb dflt tolp o t : gate tolb dflt tolp o t = true ->
-  match o with
-  | Some ts => exists e, In e ts /\ Rabs (e - t) <= tolp
-  | None => match dflt with
-            | Some d => exists e, In e d /\ Rabs (e - t) <= tolb
-            | None => True
-            end
+  0 <= t <= 1 /\
+  match o, dflt with
+  | None, None => True
+  | _, _ => exists e, requested_of dflt o e /\ Rabs (e - t) <= tolb
   end.
 Proof.
   unfold gate, backend_gate, pulser_gate, is_evaluation_time. intros H.
   apply andb_true_iff in H. destruct H as [H1 H2]. destruct o as [ts|].
-  - apply in_times_elim in H2. tauto.
-  - destruct dflt as [d|]; [|exact I]. simpl in H1. apply in_times_elim in H1. tauto.
+  - apply in_times_elim in H1. destruct H1 as (A & e & He & Hc). split; [exact A|].
+    destruct dflt; exists e; auto.
+  - destruct dflt as [d|].
+    + apply in_times_elim in H1. destruct H1 as (A & e & He & Hc). split; [exact A|]. exists e; auto.
+    + split; [|exact I]. unfold in01, zero, one in H1. simpl in H1. apply andb_true_iff in H1.
+      destruct H1 as [A B]. apply Rleb_true in A, B. lra.
 Qed.
 
 (* If the requested times of the observable are separated from the other grid times by more than
-   both tolerances, the gates accept a grid time exactly when it is requested. *)
+   the backend tolerance, the gates accept a grid time exactly when it is requested. *)
 Theorem gate_exact tolb dflt tolp o t :
   0 <= tolb -> 0 <= tolp -> 0 <= t <= 1 ->
-  (forall e, requested_of dflt o e -> Rabs (e - t) <= Rmax tolb tolp -> e = t) ->
+  (forall e, requested_of dflt o e -> Rabs (e - t) <= tolb -> e = t) ->
   (gate tolb dflt tolp o t = true <-> requested_of dflt o t).
 Proof.
   intros Hb Hp Ht Hsep. split; [|now apply gate_complete].
-  intros H. apply gate_sound in H. destruct o as [ts|].
-  - destruct H as (e & He & Hd). simpl. rewrite <- (Hsep e He); [exact He|].
-    eapply Rle_trans; [exact Hd|apply Rmax_r].
-  - destruct dflt as [d|]; [|exact I]. destruct H as (e & He & Hd). simpl.
-    rewrite <- (Hsep e He); [exact He|]. eapply Rle_trans; [exact Hd|apply Rmax_l].
-Qed.
-
-(* The F-07 mechanism in exact arithmetic: an observable with own times is accepted at a default
-   time d that is within pulser's tolerance of an own time e, although d is not requested. *)
-Lemma gate_accepts_near_default tolb tolp ts d e (dl : list R) :
-  0 <= tolb -> 0 <= d <= 1 -> In d dl -> In e ts -> Rabs (e - d) <= tolp ->
-  gate tolb (Some dl) tolp (Some ts) d = true.
-Proof.
-  intros Hb Hd Hin He Hc. unfold gate, backend_gate, pulser_gate, is_evaluation_time.
-  rewrite (in_times_self d dl tolb Hb Hd Hin), orb_true_r. simpl.
-  unfold in_times. rewrite in01_intro by assumption. simpl.
-  apply existsb_exists. exists e. split; [exact He|]. apply Rleb_true. exact Hc.
+  intros H. apply gate_sound in H. destruct H as [_ H]. destruct o as [ts|].
+  - assert (X : exists e, requested_of dflt (Some ts) e /\ Rabs (e - t) <= tolb) by (destruct dflt; exact H).
+    destruct X as (e & He & Hd). rewrite <- (Hsep e He Hd). exact He.
+  - destruct dflt as [d|]; [|exact I]. destruct H as (e & He & Hd). rewrite <- (Hsep e He Hd). exact He.
 Qed.
 
 Example gate_exact_premises_satisfiable :
   exists tolb tolp dflt o t, 0 <= tolb /\ 0 <= tolp /\ 0 <= t <= 1 /\
-    (forall e, requested_of dflt o e -> Rabs (e - t) <= Rmax tolb tolp -> e = t) /\ requested_of dflt o t.
+    (forall e, requested_of dflt o e -> Rabs (e - t) <= tolb -> e = t) /\ requested_of dflt o t.
 Proof.
   exists (1/10), (1/10), (Some [1]), (Some [1/2]), (1/2). repeat split; try lra.
   - intros e [<-|[]] _. reflexivity.
   - now left.
 Qed.
 
-(* ---- binary64 witnesses of finding F-07 ---------------------------------------------------- *)
+(* ---- adapter + backend: the separation premise is DERIVED from the grid theorem -------------- *)
+Definition tolp_of (tol0 dur : R) : R :=
+  if (Int_part dur =? 0)%Z then tol0 else 1 / 2 / IZR (Int_part dur).
+
+Theorem run_config_recorded tolb tol0 tolu mps dur dt (obs : list (option (list R))) dflt :
+  0 < dur -> 0 < dt -> 0 < tolu < 1 -> 0 <= tol0 ->
+  (forall t, requested_by obs dflt t -> 0 <= t <= 1) ->
+  (dflt = None -> Forall (fun o => o <> None) obs) ->
+  exists g st,
+    get_target_times RA R_floor tolu dur dt obs dflt = Ok g /\
+    run_config RA R_floor tolb tol0 tolu mps dur dt obs dflt = Ok st /\
+    0 <= tolp_of tol0 dur /\
+    Forall2 (fun o r => forall t k, In (t, k) r <->
+                          on_grid g dur t k /\ gate tolb dflt (tolp_of tol0 dur) o t = true)
+            obs (r_recs st) /\
+    (forall t k, In (t, k) (r_stat st) <-> on_grid g dur t k /\ (1 <= k)%nat) /\
+    Forall desc (r_recs st) /\
+    rev (r_steps st) = intervals g.
+Proof.
+  intros Hdur Hdt Hu H0 Hreq Hfull.
+  destruct (grid_spec tolu dur dt obs dflt Hdur Hdt Hu Hreq Hfull)
+    as (g & Eg & Gs & Gh & Gl & Gadj & Gsub & _).
+  destruct g as [|g0 suf]; [discriminate|]. simpl in Gh. inversion Gh; subst g0.
+  destruct (run_recorded tolb tol0 tolu mps suf obs dflt) as (st & tolp & Er & Htp & Etp & HF & HS & HO).
+  - rewrite Gl. exact Hdur.
+  - exact H0.
+  - apply Hu.
+  - exact Gs.
+  - rewrite Gl. intros t Ht. apply Gsub, Ht.
+  - rewrite Gl. exact Gadj.
+  - rewrite Gl in *. fold (tolp_of tol0 dur) in Etp. subst tolp.
+    exists (0 :: suf), st. split; [exact Eg|]. split.
+    + unfold run_config. rewrite Eg. simpl res_bind. exact Er.
+    + split; [exact Htp|]. split; [exact HF|]. split; [exact HS|]. split; [exact HO|].
+      apply (run_steps tolb tol0 tolu mps (0 :: suf) obs dflt st eq_refl Er).
+Qed.
+
+Lemma Forall2_impl_In (A B : Type) (P Q : A -> B -> Prop) : forall l1 l2,
+  Forall2 P l1 l2 -> (forall a b, In a l1 -> P a b -> Q a b) -> Forall2 Q l1 l2.
+Proof.
+  induction 1; intros H1; constructor.
+  - apply H1; [now left|assumption].
+  - apply IHForall2. intros a b Ha. apply H1. now right.
+Qed.
+
+Lemma sorted_NoDup (l : list R) : StronglySorted Rlt l -> NoDup l.
+Proof.
+  induction 1; constructor; auto. intros Hin. rewrite Forall_forall in H0. specialize (H0 _ Hin). lra.
+Qed.
+
+Lemma adjP_pairwise dur tau l : 0 < dur -> 0 <= tau ->
+  adjP (fun a b => a + tau <= b) (map (fun t => t / dur) l) ->
+  forall x y, In x l -> In y l -> x <> y -> tau <= Rabs (x / dur - y / dur).
+Proof.
+  intros Hdur Htau H.
+  assert (S : StronglySorted (fun a b => a / dur + tau <= b / dur) l).
+  { apply Sorted_StronglySorted; [intros x y z; lra|].
+    induction l as [|a r IH]; [constructor|]. destruct r as [|b r'].
+    - constructor; constructor.
+    - simpl in H. destruct H as [H1 H2]. constructor; [apply IH; exact H2|]. constructor. exact H1. }
+  clear H. induction S as [|a l S IH F]; intros x y Hx Hy Hne; [destruct Hx|].
+  rewrite Forall_forall in F.
+  destruct Hx as [<-|Hx]; destruct Hy as [<-|Hy].
+  - congruence.
+  - specialize (F y Hy). rewrite Rabs_left1 by lra. lra.
+  - specialize (F x Hx). rewrite Rabs_right by lra. lra.
+  - now apply IH.
+Qed.
+
+(* Recorded exactly at the requested times, once: if distinct candidate points (multiples of dt,
+   requested times, the duration) are never closer than 2*tolb (relative) unless they are
+   closer than the merge tolerance tolu, then for every observable
+   - every stored pair (t, k) sits on the grid (computed after k steps, t = g_k / T) and t is
+     within tolu of a time requested for this observable;
+   - every requested time e has a stored pair within tolu, and it is the only stored pair within
+     tolb of e. *)
+Theorem recorded_exactly_requested tolb tol0 tolu mps dur dt (obs : list (option (list R))) dflt :
+  0 < dur -> 0 < dt -> 0 < tolu < 1 -> 0 <= tol0 ->
+  tolu <= tolb -> tolu <= tolp_of tol0 dur ->
+  (forall t, requested_by obs dflt t -> 0 <= t <= 1) ->
+  (dflt = None -> Forall (fun o => o <> None) obs) ->
+  (forall x y, is_candidate dur dt obs dflt x -> is_candidate dur dt obs dflt y ->
+     Rabs (x / dur - y / dur) <= 2 * tolb -> Rabs (x / dur - y / dur) < tolu) ->
+  exists g st,
+    get_target_times RA R_floor tolu dur dt obs dflt = Ok g /\
+    run_config RA R_floor tolb tol0 tolu mps dur dt obs dflt = Ok st /\
+    Forall2 (fun o r =>
+      (forall t k, In (t, k) r ->
+         on_grid g dur t k /\ exists e, requested_of dflt o e /\ Rabs (e - t) < tolu) /\
+      (forall e, requested_of dflt o e ->
+         exists t k, In (t, k) r /\ Rabs (e - t) < tolu /\
+           forall t' k', In (t', k') r -> Rabs (e - t') <= tolb -> t' = t /\ k' = k))
+      obs (r_recs st) /\
+    Forall desc (r_recs st).
+Proof.
+  intros Hdur Hdt Hu H0 Hub Hup Hreq Hfull Hsep.
+  destruct (grid_spec tolu dur dt obs dflt Hdur Hdt Hu Hreq Hfull)
+    as (g & Eg & Gs & Gh & Gl & Gadj & Gsub & Gcov).
+  destruct (run_config_recorded tolb tol0 tolu mps dur dt obs dflt Hdur Hdt Hu H0 Hreq Hfull)
+    as (g' & st & Eg' & Er & Htp & HF & _ & HO & _).
+  rewrite Eg in Eg'. inversion Eg'; subst g'. clear Eg'.
+  exists g, st. split; [exact Eg|]. split; [exact Er|]. split; [|exact HO].
+  assert (Hb : 0 <= tolb) by lra.
+  assert (Hdd : forall e, e * dur / dur = e) by (intros; field; lra).
+  assert (Hcand : forall o e, In o obs -> requested_of dflt o e -> is_candidate dur dt obs dflt (e * dur)).
+  { intros o e Ho He. right; right. exists e. split; [|reflexivity]. exists o. split; [exact Ho|].
+    destruct o as [ts|]; [exact He|]. destruct dflt as [d|]; [exact He|].
+    specialize (Hfull eq_refl). rewrite Forall_forall in Hfull. specialize (Hfull _ Ho). congruence. }
+  assert (Hgrid01 : forall y, In y g -> 0 <= y / dur <= 1).
+  { intros y Hy. destruct (Gsub y Hy) as [_ B]. split.
+    - unfold Rdiv. apply Rmult_le_pos; [lra|]. apply Rlt_le, Rinv_0_lt_compat; lra.
+    - apply (Rmult_le_reg_r dur); [lra|]. replace (y / dur * dur) with y by (field; lra). lra. }
+  eapply Forall2_impl_In; [exact HF|]. intros o r Ho Hr. split.
+  - (* soundness *)
+    intros t k Hin. apply Hr in Hin. destruct Hin as [Hg Hgate]. split; [exact Hg|].
+    destruct Hg as (y & Hn & ->). apply nth_error_In in Hn.
+    apply gate_sound in Hgate. destruct Hgate as [_ Hgate].
+    assert (X : exists e, requested_of dflt o e /\ Rabs (e - y / dur) <= tolb).
+    { destruct o as [ts|]; [destruct dflt; exact Hgate|]. destruct dflt as [d|]; [exact Hgate|].
+      specialize (Hfull eq_refl). rewrite Forall_forall in Hfull. specialize (Hfull _ Ho). congruence. }
+    destruct X as (e & He & Hd). exists e. split; [exact He|].
+    rewrite <- (Hdd e). apply Hsep; [now apply (Hcand o)|apply Gsub, Hn|]. rewrite Hdd. lra.
+  - (* completeness and uniqueness *)
+    intros e He. pose proof (Hcand o e Ho He) as Hc.
+    destruct (Gcov _ Hc) as (y & Hy & Hcl). rewrite Hdd in Hcl.
+    destruct (In_nth_error _ _ Hy) as (k & Hk).
+    exists (y / dur), k. split; [|split; [exact Hcl|]].
+    + apply Hr. split; [exists y; auto|].
+      apply (gate_near tolb dflt _ o (y / dur) e); [now apply Hgrid01|exact He|lra|lra].
+    + intros t' k' Hin Hd. apply Hr in Hin. destruct Hin as [(y' & Hk' & ->) _].
+      assert (Hy' : In y' g) by (eapply nth_error_In; exact Hk').
+      assert (E : y' = y).
+      { destruct (Req_dec y' y) as [E|Hne]; [exact E|exfalso].
+        pose proof (adjP_pairwise dur tolu g Hdur (Rlt_le _ _ (proj1 Hu)) Gadj y' y Hy' Hy Hne) as Hp.
+        assert (Rabs (y' / dur - y / dur) < tolu); [|lra].
+        apply Hsep; [apply Gsub, Hy'|apply Gsub, Hy|].
+        replace (y' / dur - y / dur) with ((e - y / dur) - (e - y' / dur)) by lra.
+        eapply Rle_trans; [apply Rabs_triang|]. rewrite Rabs_Ropp. lra. }
+      subst y'. split; [reflexivity|].
+      apply (proj1 (NoDup_nth_error g) (sorted_NoDup g Gs)); [|congruence].
+      apply nth_error_Some. congruence.
+Qed.
+
+Example recorded_exactly_requested_premises_satisfiable :
+  exists tolb tol0 tolu dur dt (obs : list (option (list R))) dflt,
+    0 < dur /\ 0 < dt /\ 0 < tolu < 1 /\ 0 <= tol0 /\ tolu <= tolb /\ tolu <= tolp_of tol0 dur /\
+    (forall t, requested_by obs dflt t -> 0 <= t <= 1) /\
+    (dflt = None -> Forall (fun o => o <> None) obs) /\
+    (forall x y, is_candidate dur dt obs dflt x -> is_candidate dur dt obs dflt y ->
+       Rabs (x / dur - y / dur) <= 2 * tolb -> Rabs (x / dur - y / dur) < tolu).
+Proof.
+  exists (1/100), (1/1000), (1/1000), 10, 5, [Some [1/2]], (Some [1]).
+  assert (EI : Int_part 10 = 10%Z).
+  { destruct (base_Int_part 10) as [A B].
+    assert (9 < Int_part 10 < 11)%Z; [|lia]. split; apply lt_IZR; simpl; lra. }
+  assert (EI2 : Int_part (10 / 5) = 2%Z).
+  { replace (10 / 5) with 2 by lra. destruct (base_Int_part 2) as [A B].
+    assert (1 < Int_part 2 < 3)%Z; [|lia]. split; apply lt_IZR; simpl; lra. }
+  assert (Hreq : forall t, requested_by [Some [1/2]] (Some [1]) t -> t = 1/2).
+  { intros t (o & [<-|[]] & Hm). simpl in Hm. destruct Hm as [<-|[]]. reflexivity. }
+  assert (Hc : forall x, is_candidate 10 5 [Some [1/2]] (Some [1]) x -> x = 0 \/ x = 5 \/ x = 10).
+  { intros x [->|[(i & Hi & ->)|(t & Ht & ->)]].
+    - auto.
+    - rewrite EI2 in Hi. assert (i = 0 \/ i = 1 \/ i = 2)%Z by lia.
+      destruct H as [->|[->| ->]]; simpl; [left|right; left|right; right]; lra.
+    - rewrite (Hreq t Ht). right; left. lra. }
+  repeat split; try lra.
+  - unfold tolp_of. rewrite EI. simpl. lra.
+  - rewrite (Hreq t H). lra.
+  - rewrite (Hreq t H). lra.
+  - discriminate.
+  - intros x y Hx Hy. apply Hc in Hx, Hy.
+    destruct Hx as [->|[->| ->]]; destruct Hy as [->|[->| ->]]; unfold Rabs;
+      repeat destruct Rcase_abs; lra.
+Qed.
+
+(* ---- binary64: the former witnesses of finding F-07 now pass (regressions) ------------------ *)
 Section FloatWitness.
 Import PrimFloat.
 Local Open Scope float_scope.
@@ -374,24 +582,25 @@ Definition w07_dflt := [0x1.0027525460aa6p-1; 1].   (* 0.5003, 1.0 *)
 Definition recorded_times (r : res (rstate float)) (j : nat) : list float :=
   match r with Ok st => map fst (rev (nth j (r_recs st) [])) | _ => [] end.
 
-Lemma f07_float :
-  exists st,
-    run_config float_arith float_floor w_tolb w_tol0 w_tolu false 1000 10
+Lemma f07_witness_float :
+  forall mps, exists st,
+    run_config float_arith float_floor w_tolb w_tol0 w_tolu mps 1000 10
                [Some w07_own; None] (Some w07_dflt) = Ok st /\
-    recorded_times (Ok st) 0 = [0.5; 0x1.0027525460aa6p-1] /\
-    recorded_times (Ok st) 1 = [0x1.0027525460aa6p-1; 1].
-Proof. eexists. split; [vm_compute; reflexivity|]. split; vm_compute; reflexivity. Qed.
-
-(* default "Full": recorded at every grid time within 0.5/T of the own time *)
-Lemma f07_full_float :
-  exists st,
-    run_config float_arith float_floor w_tolb w_tol0 w_tolu true 100 1 [Some w07_own] None = Ok st /\
-    length (recorded_times (Ok st) 0) = 1%nat /\
-    exists st2,
-    run_config float_arith float_floor w_tolb w_tol0 w_tolu true 100 0.25 [Some w07_own] None = Ok st2 /\
-    length (recorded_times (Ok st2) 0) = 3%nat.
+    recorded_times (Ok st) 0 = w07_own /\
+    recorded_times (Ok st) 1 = w07_dflt.
 Proof.
-  eexists. split; [vm_compute; reflexivity|]. split; [vm_compute; reflexivity|].
-  eexists. split; vm_compute; reflexivity.
+  intros [|]; eexists; (split; [vm_compute; reflexivity|split; vm_compute; reflexivity]).
+Qed.
+
+(* default "Full": the observable with own times [0.5] is recorded once, whatever dt *)
+Lemma f07_full_witness_float :
+  exists st st2,
+    run_config float_arith float_floor w_tolb w_tol0 w_tolu true 100 1 [Some w07_own] None = Ok st /\
+    recorded_times (Ok st) 0 = w07_own /\
+    run_config float_arith float_floor w_tolb w_tol0 w_tolu true 100 0.25 [Some w07_own] None = Ok st2 /\
+    recorded_times (Ok st2) 0 = w07_own.
+Proof.
+  eexists. eexists. split; [vm_compute; reflexivity|]. split; [vm_compute; reflexivity|].
+  split; vm_compute; reflexivity.
 Qed.
 End FloatWitness.
